@@ -299,3 +299,45 @@ def _is_last_index(sl, base):
     s = ast.unparse(sl).replace(' ', '')
     b = ast.unparse(base).replace(' ', '')
     return s in ('-1', 'len(%s)-1' % b)
+
+
+def check_reflective_state(ix, rep, prefixes=('rtamt/semantics/', 'rtamt/explanation/', 'rtamt/pastifier/'), rule='R-PURE'):
+    """the purity, reset and ownership rules see the state of an object through `self.attr` reads and writes.  State reached reflectively --
+    ``self.__dict__``, ``vars(self)``, ``setattr(self, ..)``, ``getattr(self, <computed name>)`` -- is state they cannot see: a handler that
+    keeps something there between two visits (a window "kept with the operator") makes the second evaluate() start from the end of the
+    first.  Evaluation code does not use these forms; one site per use is reported.  (`getattr(self, 'name', default)` with a constant name is
+    an ordinary attribute read and is treated as one by the other rules.)"""
+    n = 0
+    for mod in sorted(ix.modules.values(), key=lambda m: m.rel):
+        if not any(mod.rel.startswith(p) for p in prefixes) or ix.unimportable(mod):
+            continue
+        for fn in ast.walk(mod.tree):
+            if not isinstance(fn, ast.FunctionDef):
+                continue
+            n += 1
+            bad = None
+            for x in ast.walk(fn):
+                if isinstance(x, ast.Attribute) and x.attr == '__dict__' and isinstance(x.value, ast.Name) and x.value.id == 'self':
+                    bad = x
+                elif isinstance(x, ast.Call) and isinstance(x.func, ast.Name) and x.func.id == 'vars' and x.args and isinstance(x.args[0], ast.Name) and x.args[0].id == 'self':
+                    bad = x
+                elif isinstance(x, ast.Call) and isinstance(x.func, ast.Name) and x.func.id in ('setattr', 'delattr') and x.args and isinstance(x.args[0], ast.Name) \
+                        and x.args[0].id == 'self':
+                    bad = x
+                elif isinstance(x, ast.Call) and isinstance(x.func, ast.Name) and x.func.id == 'getattr' and len(x.args) >= 2 and isinstance(x.args[0], ast.Name) \
+                        and x.args[0].id == 'self' and not isinstance(x.args[1], ast.Constant):
+                    bad = x
+                elif isinstance(x, ast.Call) and isinstance(x.func, ast.Attribute) and x.func.attr == '__setattr__':
+                    bad = x
+            owner = None
+            for c in ast.walk(mod.tree):
+                if isinstance(c, ast.ClassDef) and any(s is fn for s in c.body):
+                    owner = c.name
+            sym = '%s.%s' % (owner, fn.name) if owner else fn.name
+            if bad is not None:
+                rep.fail(rule, mod.rel, sym, 'reflective-state', '`%s`: state of the object reached reflectively -- what is kept there is invisible to the purity, reset and ownership '
+                         'analyses, and survives from one evaluate()/visit to the next (a second evaluation of the same specification on the same data starts from the leftovers of '
+                         'the first)' % ast.unparse(bad)[:60], bad.lineno)
+            else:
+                rep.ok(rule, mod.rel, sym, 'no-reflective-state', '', fn.lineno)
+    return n
